@@ -25,7 +25,8 @@ EXPLANATION = (
     "walrus lies in the outermost iterable of a converter-built comprehension or under a "
     "comprehension whose target is a user name or a non-reserved constant; C02-R4 = C08-R3 "
     "(yield/await rejected); C02-R5 checks that convert_code_string returns the unparser's text "
-    "with nothing but the defensive newline removal applied."
+    "with nothing but the defensive newline removal applied; with the custom unparser the "
+    "syntax-critical skeleton rules of C03/C11-R6/C04-R3 are evaluated too."
 )
 ASSUMPTIONS = [
     "ast.unparse of the host prints a well-formed expression for a well-formed tree (stdlib, trusted)",
